@@ -553,7 +553,7 @@ pub fn check_c06(tier: Tier) -> i32 {
 }
 pub fn check_c07(tier: Tier) -> i32 {
     let a = global_alphabet();
-    binding_check("C07", tier, global_bases(), &a, ClauseKind::Global, 3, 4, "global")
+    binding_check("C07", tier, global_bases(), &a, ClauseKind::Global, 3, 5, "global")
 }
 pub fn check_c08(tier: Tier) -> i32 {
     let a = mem_alphabet();
